@@ -3,6 +3,8 @@ package types
 import (
 	"encoding/hex"
 	"fmt"
+
+	sdk "github.com/cosmos/cosmos-sdk/types"
 )
 
 // NewGenesisState constructs a GenesisState
@@ -48,8 +50,9 @@ func ValidateGenesis(data GenesisState) error {
 		}
 	}
 
-	for providerAddressStr := range data.WithdrawAddresses {
-		if _, err := hex.DecodeString(providerAddressStr); err != nil {
+	for ownerAddressStr := range data.WithdrawAddresses {
+		// the keys are written by ExportGenesis (and read by InitGenesis) in bech32
+		if _, err := sdk.AccAddressFromBech32(ownerAddressStr); err != nil {
 			return err
 		}
 	}
